@@ -209,6 +209,11 @@ impl VHandler {
         self.inner.verif_refresh_action_id().verif_value()
     }
 
+    /// The action ids that activities started from now on will get (the rest of the current block).
+    pub fn upcoming_action_ids(&self) -> Vec<u64> {
+        self.inner.verif_upcoming_action_ids()
+    }
+
     pub async fn refresh(&mut self) {
         self.inner.verif_refresh().await
     }
